@@ -139,7 +139,8 @@ Lemma frame4_global_id n : frame4 (global_id n).
 Proof.
   unfold global_id. apply frame4_bind; [apply frame4_handle_from_bytes|]. intros h s.
   destruct (nm_find h (cs_ids s)); [|destruct (ht_entry_hangs (cs_ids s)); [exact I|]];
-    (destruct (nm_find _ (cs_names s)); [cbn; auto|];
+    (destruct (nm_find _ (cs_names s));
+     [unfold name_checked; destruct (global_name_checked && negb (str_eqb _ _)); cbn; auto|];
      destruct (ht_entry_hangs (cs_names s)); cbn; auto).
 Qed.
 
